@@ -15,6 +15,7 @@ from crosshair.util import CrossHairValue as _CHV
 from crosshair.tracers import NoTracing as _NoTracing
 
 APPLIED = []
+EXACT = {"on": False}     # a harness whose subject IS the text of numbers (json bytes: lemma J) switches E5 off for ints
 
 
 def _findall(self, string, *a):
@@ -136,7 +137,7 @@ def apply():
     _exact_float_text = _bl.SymbolicFloat.__repr__
     _orig_num_format = _bl.SymbolicNumberAble.__format__
     _bl.SymbolicInt.__str__ = _exact_int_text          # str(): exact digits (templates render options with str())
-    _bl.SymbolicInt.__repr__ = lambda self: "<int>"
+    _bl.SymbolicInt.__repr__ = lambda self: (_exact_int_text(self) if EXACT["on"] else "<int>")
     _bl.SymbolicFloat.__str__ = _exact_float_text
     _bl.SymbolicFloat.__repr__ = lambda self: "<float>"
     _bl.AnySymbolicStr.__repr__ = lambda self: "<str>"
